@@ -21,6 +21,8 @@ GenInstSets == { {},
 McStatic == { {}, {S("a", 0), S("b", 0)}, {S("a", 1), S("b", 3), S("c", 1)} }
 McInstSets == { {D("x", 1, FALSE)}, {D("x", 2, TRUE), D("y", 0, TRUE), D("z", 5, FALSE)},
                 {D("x", 0, TRUE), D("y", 0, TRUE), D("z", 0, TRUE)} }
+(* one report, delivered again and again: the same instances, in whatever order they come out *)
+AgainInstSets == { {D("x", 0, TRUE), D("y", 0, TRUE)}, {D("x", 1, FALSE)} }
 (* ... with every weight positive: what the pinned code can handle under weightedRandom *)
 PosStatic == { {}, {S("a", 1), S("b", 3), S("c", 1)} }
 PosInstSets == { {D("x", 1, FALSE)}, {D("x", 2, TRUE), D("y", 0, TRUE), D("z", 5, FALSE)} }
